@@ -324,6 +324,12 @@ def concrete(rp, T=6):
           return (f'step {step}: sketch eigenvalues {val[-k:, -1]} but s_i^2 - s_k^2 = {want_l}', 'deflation')
         if want_t > 1e-6 and abs(float(val[0, -1]) - want_t ** (-1.0 / p)) > 1e-2 * want_t ** (-1.0 / p):
           return (f'step {step}: stored constant {float(val[0, -1])} but t\'^(-1/p) = {want_t ** (-1.0 / p)}', 'inverse-root')
+        for i in range(k):
+          if want_l[i] > 1e-6:
+            wi = (want_l[i] + want_t) ** (-1.0 / p)
+            got = float(val[i, -2])
+            if abs(got - wi) > 2e-3 * wi:
+              return (f'step {step}: stored inverse root {got} of direction {i} but (l\' + t\')^(-1/p) = {wi} (l\'={want_l[i]}, t\'={want_t})', 'inverse-root')
         prev = val.astype(np.float32)
   return None
 
